@@ -11,7 +11,8 @@ Model of the retry arithmetic and of the retry decision of grpc-go (gRFC A6):
 Numbers: the Go code computes in float64; the model computes in exact rationals (`Rat`, core
 Lean).  Durations are `Int` nanoseconds; the two places where the Go code converts to int64
 (`time.Millisecond * time.Duration(pushback)` and `time.Duration(int64(cur))`) are ported with
-their wrap-around / out-of-range behaviour (amd64: an out-of-range float converts to MinInt64).
+the saturation guards the code puts in front of them (and, behind the guards, with the raw
+wrap-around / out-of-range behaviour: amd64 converts an out-of-range float to MinInt64).
 The random jitter `rand.Float64()` is the explicit argument `r`.
 -/
 import GrpcModel.Generated.Retry
@@ -43,11 +44,12 @@ deriving Repr, DecidableEq
 def validThrottling (maxTokens ratio : Rat) : Bool :=
   !(maxTokens ≤ 0 || maxTokens > 1000) && !(ratio ≤ 0)
 
-/-- `parseServiceConfig` as it is: `if rsc.MethodConfig == nil { return Config }` comes BEFORE the
-    retryThrottling validation, so a config without a `methodConfig` member is accepted
-    whatever its retryThrottling values are. -/
-def acceptsThrottling (hasMethodConfig : Bool) (maxTokens ratio : Rat) : Bool :=
-  if !hasMethodConfig then true else validThrottling maxTokens ratio
+/-- `parseServiceConfig`: the retryThrottling range check runs before the
+    `if rsc.MethodConfig == nil { return Config }` early return (since /repo e52eadc; before that
+    commit a config without a `methodConfig` member skipped the check), so acceptance does not
+    depend on whether the config has a `methodConfig` member. -/
+def acceptsThrottling (_hasMethodConfig : Bool) (maxTokens ratio : Rat) : Bool :=
+  validThrottling maxTokens ratio
 
 /-- `applyServiceConfigAndBalancer`: tokens = max = MaxTokens, thresh = MaxTokens / 2. -/
 def Throttler.new (maxTokens ratio : Rat) : Throttler :=
@@ -212,11 +214,16 @@ def backoffBase (p : Policy) (k : Nat) : Rat :=
 /-- `cur *= 0.8 + 0.4*rand.Float64()`. -/
 def jittered (base r : Rat) : Rat := base * (4 / 5 + 2 / 5 * r)
 
-/-- `dur = time.Duration(int64(cur))`. -/
-def backoffDur (p : Policy) (k : Nat) (r : Rat) : Int := toInt64 (jittered (backoffBase p k) r)
+/-- `dur = time.Duration(math.MaxInt64); if cur < math.MaxInt64 { dur = time.Duration(int64(cur)) }`
+    (the float64 constant math.MaxInt64 is 2^63): saturating since /repo 0ecebdc. -/
+def backoffDur (p : Policy) (k : Nat) (r : Rat) : Int :=
+  let cur := jittered (backoffBase p k) r
+  if cur < 9223372036854775808 then toInt64 cur else maxInt64
 
-/-- `dur = time.Millisecond * time.Duration(pushback)` (int64 multiplication). -/
-def pushbackDur (ms : Int) : Int := wrap64 (1000000 * ms)
+/-- `dur = time.Duration(math.MaxInt64); if pushback <= math.MaxInt64/int(time.Millisecond)
+    { dur = time.Millisecond * time.Duration(pushback) }`: saturating since /repo dab5ad1. -/
+def pushbackDur (ms : Int) : Int :=
+  if ms ≤ 9223372036854775807 / 1000000 then wrap64 (1000000 * ms) else maxInt64
 
 /-! ### csAttempt.shouldRetry -/
 
